@@ -20,12 +20,14 @@ package hwmon
 //@ pure hit(cs []*HwMonController, i int, j int, pat string, idx int, ch int) bool = reMatch[pat][cs[i].Platform] && fanSel(cs[i].Fans[j].Config.HwMon, idx, ch)
 
 //@ func setFanConfigPaths
+//@   params (config)
 //@   props C17
 //@   requires config != nil
 //@   ensures[C17.paths] config.RpmInputPath == pathjoin(config.SysfsPath, "fan" + itoa(config.RpmChannel) + "_input") && config.PwmPath == pathjoin(config.SysfsPath, "pwm" + itoa(config.PwmChannel)) && config.PwmEnablePath == pathjoin(config.SysfsPath, "pwm" + itoa(config.PwmChannel) + "_enable")
 //@   modifies config.RpmInputPath, config.PwmPath, config.PwmEnablePath
 
 //@ func UpdateFanConfigFromHwMonControllers
+//@   params (controllers, config)
 //@   props C17
 //@   let pat = "(?i)" + config.HwMon.Platform
 //@   let idx = config.HwMon.Index
